@@ -15,21 +15,23 @@ import BHS.Model.Query
 namespace BHS.Sync
 open BHS.Chain
 
-/-- THE F4a SWITCH. `New` does not set `headersFirstMode` when checkpoints are disabled, so every headers message is
-    "unrequested" and its sender is disconnected (finding C06-F4a). When /repo is repaired (`sm.headersFirstMode = true`
-    in the `else` branch of `New`), set this to `true`; nothing else in the model changes. -/
-def f4aFixed : Bool := false
+/-- F4a switch — CODE AS IT IS NOW (/repo 8573612 "fix: sync with disabled checkpoints accepts the headers it asked for"):
+    `New` sets `headersFirstMode = true` also when checkpoints are disabled. Before the repair it stayed false, every
+    headers message was "unrequested" and its sender was disconnected (former finding C06-F4a, now a `fixed` entry whose
+    witness runs first on every check). `false` = the code before the repair. -/
+def f4aFixed : Bool := true
 
-/-- THE F4b SWITCH. Peer.PushGetHeadersMsg drops a request that equals the previous one even when that one has long been
-    answered, so after a completed sync (last request getheaders(locator(tip), 0), answered empty) an inv of a new block
-    produces nothing (finding C06-F4b). Suggested repair: peer.go inHandler, `case *wire.MsgHeaders:` clears
-    prevGetHdrsBegin / prevGetHdrsStop before the listener runs. When /repo is repaired that way, set this to `true`. -/
-def f4bFixed : Bool := false
+/-- F4b switch — CODE AS IT IS NOW (/repo f49151a "fix: a getheaders request is no duplicate once its answer has arrived"):
+    peer.go inHandler, `case *wire.MsgHeaders:` clears prevGetHdrsBegin / prevGetHdrsStop before the listener runs.
+    Before the repair the filter was never cleared, so after a completed sync (last request getheaders(locator(tip), 0),
+    answered empty) an inv of a new block produced nothing (former finding C06-F4b). `false` = the code before the repair. -/
+def f4bFixed : Bool := true
 
-/-- THE F4d SWITCH. handleCheckSyncPeer keeps the sync peer only when topBlock() == tip height; once the service is
-    ahead of what the peer advertised, the stale tick disconnects it (finding C06-F4d). Suggested repair:
-    `if sm.topBlock() <= best.Height`. When /repo is repaired that way, set this to `true`. -/
-def f4dFixed : Bool := false
+/-- F4d switch — CODE AS IT IS NOW (/repo 0b0b1e1 "fix: the sync peer watchdog keeps a peer we are already ahead of"):
+    handleCheckSyncPeer keeps the sync peer when `topBlock() <= best.Height`. Before the repair the test was `==`, and the
+    stale tick disconnected an up-to-date sync peer once the service was ahead of what that peer had advertised (former
+    finding C06-F4d). `false` = the code before the repair. -/
+def f4dFixed : Bool := true
 
 /-- what the manager and the peer object know about one peer -/
 structure PeerSt (H : Type) where
@@ -199,7 +201,7 @@ def headersLoop (ccfg : Chain.Cfg H) (nextCp : Option (Nat × H)) :
         else headersLoop ccfg nextCp (add ccfg s x).1 xs rc fh'
       | none => headersLoop ccfg nextCp (add ccfg s x).1 xs rc fh'
 
-/-- the peer object after its inHandler has read a headers message (repaired code: the duplicate filter is cleared) -/
+/-- the peer object after its inHandler has read a headers message: the duplicate filter is cleared (f49151a) -/
 def headersSeen (q : PeerSt H) : PeerSt H :=
   if f4bFixed then { q with prevBegin := none, prevStop := none } else q
 
